@@ -72,9 +72,13 @@ func runC18(c *fw.Case) {
 	if c.Thorough() {
 		dur = "6000"
 	}
-	res := fw.RunSub(race, 400, env, c.Dir, "c18work", "-kind", kind, "-dir", work, "-seed", fmt.Sprint(seed), "-calls", dur)
+	res := fw.RunSub(race, 200, env, c.Dir, "c18work", "-kind", kind, "-dir", work, "-seed", fmt.Sprint(seed), "-calls", dur)
 	c.Obs("race_builds_run", 1)
 	if res.TimedOut {
+		if site, dl := fw.ClassifyHang(res.Stderr); dl {
+			c.Violate("concurrent/"+kind+"/deadlock/"+site, "workload=%s GOMAXPROCS=%d: a call never returned: it has been blocked for minutes and no library goroutine can run any more\n%s", kind, procs, cutS(res.Stderr, 4000))
+			return
+		}
 		c.Inconclusive("race workload watchdog expired")
 		return
 	}
